@@ -2,6 +2,7 @@
 //! inputs and prints everything observable to a `.cases` file for comparison with the Coq model.
 mod common;
 mod gen;
+mod readers;
 mod statics;
 mod store;
 
@@ -58,6 +59,8 @@ fn main() {
     match mode.as_str() {
         "store" => store::run(&mut rng, count, thorough, &mut out),
         "static" => statics::run(&mut rng, count, thorough, &statics::Cfg::from_extra(&extra, 1), &mut out),
+        "readers" => readers::run_readers(&mut rng, count, thorough, &shard, &mut out),
+        "writers" => readers::run_writers(&mut rng, count, thorough, &mut out),
         "static-multi" => statics::run(&mut rng, count, thorough, &statics::Cfg::from_extra(&extra, 3), &mut out),
         _ => {
             eprintln!("unknown mode {}", mode);
